@@ -654,6 +654,20 @@ def case(args):
                                 'index': i, 'detail': json.dumps(df)[:600]})
             if r.status >= 500:
                 vio.append({'kind': 'monitor', 'signature': '5xx:%s' % op['op'], 'index': i, 'detail': str(r.json)[:300]})
+            # model-independent: what a successful inventory write STORED is what the request said, every field the body
+            # left out at its documented default (the op holds all seven values; harness/ops.py omits defaults now and then)
+            if 200 <= r.status < 300 and op['op'] in ('inv_set', 'inv_add', 'inv_update'):
+                want = {x['rc']: x for x in (op['invs'] if op['op'] == 'inv_set' else [op['inv']])}
+                rows = {row[1]: row for row in after['invs'] if row[0] == op['uuid']}
+                for rc_, x in want.items():
+                    row = rows.get(rc_)
+                    exp = [x['total'], x['reserved'], x['min_unit'], x['max_unit'], x['step_size'], float(x['ratio'])]
+                    if row is None or [row[2], row[3], row[4], row[5], row[6], float(row[7])] != exp:
+                        vio.append({'kind': 'monitor', 'signature': 'c11:stored-inventory-differs-from-request:%s' % op['op'], 'index': i,
+                                    'detail': '%s %s: stored %s, requested %s' % (op['uuid'], rc_, list(row[2:]) if row else None, exp)})
+                if op['op'] == 'inv_set' and set(rows) != set(want):
+                    vio.append({'kind': 'monitor', 'signature': 'c11:stored-inventory-differs-from-request:inv_set:classes', 'index': i,
+                                'detail': '%s: stored classes %s, requested %s' % (op['uuid'], sorted(rows), sorted(want))})
             if vio:
                 for x in vio:
                     x['replay'] = make_replay(hops, [], None, x, seed, True)
